@@ -57,7 +57,11 @@ enum Status {
     /// Stop execution early if breakpoint or `HALT` is reached.
     ///
     /// Return address is necessary to support nested subroutine calls.
-    StepOver { return_addr: u16 },
+    ///
+    /// `depth` counts calls which have been executed but not yet returned from, so that reaching
+    /// the return address from inside the subroutine (recursion through the same call site, or
+    /// a branch to that address) is not mistaken for the end of the subroutine.
+    StepOver { return_addr: u16, depth: u16 },
     /// Execute `count` instructions.
     ///
     /// Stop execution early if breakpoint or `HALT` is reached.
@@ -92,6 +96,10 @@ pub(super) enum SignificantInstr {
     ///
     /// Used by "finish".
     Return,
+    /// Call a subroutine. `JSR`, `JSRR`, or `CALL`.
+    ///
+    /// Used by "next".
+    Call,
     /// Halt. `TRAP 0x25`.
     ///
     /// Used by "continue" and "finish".
@@ -107,6 +115,10 @@ impl TryFrom<u16> for SignificantInstr {
             0xC if (instr >> 6) & 0b111 == 7 => Ok(SignificantInstr::Return),
             // `RETS` is `0xD(stack) 0b10 ...`
             0xD if (instr >> 10) & 0b11 == 0b10 => Ok(SignificantInstr::Return),
+            // `JSR` and `JSRR`
+            0x4 => Ok(SignificantInstr::Call),
+            // `CALL` is `0xD(stack) 0b11 ...`
+            0xD if (instr >> 10) & 0b11 == 0b11 => Ok(SignificantInstr::Call),
             // `HALT` is `TRAP 0x25`
             0xF if instr & 0xFF == 0x25 => Ok(SignificantInstr::Halt),
             _ => Err(()),
@@ -210,8 +222,8 @@ impl Debugger {
                     }
                 }
 
-                Status::StepOver { return_addr } => {
-                    if state.pc() == *return_addr {
+                Status::StepOver { return_addr, depth } => {
+                    if state.pc() == *return_addr && *depth == 0 {
                         // If subroutine was excecuted (for `JSR|JSRR|CALL` + `RET`|`RETS`)
                         // As opposed to a single instruction
                         if self.instruction_count > 1 {
@@ -224,6 +236,13 @@ impl Debugger {
                         }
                         self.status = Status::WaitForAction;
                         continue;
+                    }
+                    // Instruction which is about to be executed (PC may have been changed by a
+                    // command since `instr` was read above)
+                    match SignificantInstr::try_from(state.mem(state.pc())) {
+                        Ok(SignificantInstr::Call) => *depth += 1,
+                        Ok(SignificantInstr::Return) => *depth = depth.saturating_sub(1),
+                        _ => (),
                     }
                     return Action::Proceed;
                 }
@@ -366,8 +385,15 @@ impl Debugger {
 
             Command::StepOver => {
                 Self::check_halt(instr)?;
-                self.status = Status::StepOver {
-                    return_addr: state.pc().wrapping_add(1),
+                // Only a subroutine call is stepped *over*. Any other instruction, including a
+                // taken branch, is a single step
+                self.status = if instr == Some(SignificantInstr::Call) {
+                    Status::StepOver {
+                        return_addr: state.pc().wrapping_add(1),
+                        depth: 0,
+                    }
+                } else {
+                    Status::StepInto { count: 0 }
                 };
                 self.should_echo_pc = true;
             }
